@@ -8,6 +8,8 @@ import Mathlib.Tactic.Ring
 import Mathlib.Algebra.Field.Basic
 import CryoCat.Lemmas.C17_Ext
 import CryoCat.Lemmas.C17_Code
+import CryoCat.Lemmas.C17_Ties
+import CryoCat.Lemmas.C17_Num
 /-! C17 — property theorems (tilt-series metadata). Only theorems and non-vacuity examples. -/
 namespace CryoCat.C17
 
@@ -28,6 +30,15 @@ theorem write_formats_documented :
 /-- `write(removed=False)` keeps exactly the rows whose flag is not set -/
 theorem write_filter_documented : Gen.C17.writeKeepsWhenNotRemoved = true := by decide
 
+/-- `write` does not print the cells pandas filled with NaN for images whose section lacked a key (fix C17-fix-1; before it the
+file gained an invented `key = nan` line that was re-read as the TEXT "nan") -/
+theorem write_skips_nan_documented : Gen.C17.writeSkipsNan = true := by decide
+
+/-- `_parse_images` builds the one-row frame of every section with `dtype=object` (fix C17-fix-2): a key that first appears in a later
+section keeps the type `_format_value` gave its value, as the keys of the first section always did (before the fix pandas inferred
+float64 for such a column: `N = 8` was read as 8.0, and which section came first decided what a cell held) -/
+theorem row_frames_object_documented : Gen.C17.rowFramesObjectTyped = true := by decide
+
 /-- `sort_by_tilt` sorts ascending by the column the reader converts to float: "TiltAngle" -/
 theorem sort_key_documented : Gen.C17.sortKey = ['T', 'i', 'l', 't', 'A', 'n', 'g', 'l', 'e'] ∧ Gen.C17.sortAscending = true ∧
     Gen.C17.tiltKey = Gen.C17.sortKey ∧ Gen.C17.removedKey = ['R', 'e', 'm', 'o', 'v', 'e', 'd'] := by decide
@@ -41,16 +52,28 @@ theorem dose_keys_documented : Gen.C17.exposureKey = ['E', 'x', 'p', 'o', 's', '
 theorem defocus_constants_documented : Gen.C17.angToMicronGctf = 1 / 10000 ∧ Gen.C17.angToMicronCtffind = 1 / 10000 ∧
     Gen.C17.meanDivisor = 2 ∧ Gen.C17.tltSortsByDefault = true ∧ Gen.C17.emMinMax = true := by decide +kernel
 
-/-- the STOPGAP wedge-list columns, their order, and what is assigned to each (local variables inlined by the translator: only
-parameters and loader calls are named, so renaming a local does not change the value) -/
+/-- the STOPGAP wedge-list columns and their order (the `columns=[…]` list of the table), and WHAT is assigned to each column — a map
+column ↦ value, listed here by column name: the order in which the code fills the columns is not observable and not pinned (moving
+`wedge_list_df["cs"] = cs` above the voltage assignment is a harmless edit). Local variables are inlined by the translator: only
+parameters and loader calls are named, so renaming a local does not change the value -/
 theorem wedge_columns_documented : Gen.C17.wedgeColumns =
     ["tomo_num", "pixelsize", "tomo_x", "tomo_y", "tomo_z", "z_shift", "tilt_angle", "defocus", "exposure", "voltage", "amp_contrast", "cs"] ∧
-    Gen.C17.wedgeAssignments = [("tilt_angle", "ioutils.tlt_load(tlt_file)"),
-      ("defocus", "ioutils.defocus_load(ctf_file,ctf_file_type)['defocus_mean'].values"), ("exposure", "ioutils.total_dose_load(dose_file)"),
-      ("tomo_num", "tomo_id"), ("pixelsize", "pixel_size"),
+    Gen.C17.wedgeAssignments = [
       ("['tomo_x','tomo_y','tomo_z']", "np.repeat(ioutils.dimensions_load(tomo_dim).values,ioutils.tlt_load(tlt_file).shape[0],axis=0)"),
-      ("z_shift", "ioutils.z_shift_load(z_shift).values[0][0]"), ("voltage", "voltage"), ("amp_contrast", "amp_contrast"), ("cs", "cs")] ∧
+      ("amp_contrast", "amp_contrast"), ("cs", "cs"),
+      ("defocus", "ioutils.defocus_load(ctf_file,ctf_file_type)['defocus_mean'].values"), ("exposure", "ioutils.total_dose_load(dose_file)"),
+      ("pixelsize", "pixel_size"), ("tilt_angle", "ioutils.tlt_load(tlt_file)"), ("tomo_num", "tomo_id"), ("voltage", "voltage"),
+      ("z_shift", "ioutils.z_shift_load(z_shift).values[0][0]")] ∧
     Gen.C17.wedgeEmColumns = ["tomo_num", "min_angle", "max_angle"] := by decide
+
+/-- both wedge-list functions write the STAR file from the COMPLETE table: the `if output_file is not None: Starfile.write([df], …)` block is
+the last statement before `return df` and writes the very table that is returned (a write placed before the microscope constants are
+assigned gives a file with NaN constants next to a correct return value) -/
+theorem wedge_written_last_documented : Gen.C17.wedgeWrittenLast = true := by decide
+
+/-- `Mdoc.write` opens with `open(out_path, "w")` and `_read_mdoc` with `open(file_path, "r")`: no `encoding=` / `errors=` argument that could
+drop characters (µ, ü) between writing and re-reading -/
+theorem mdoc_open_documented : Gen.C17.mdocOpenArgs = ["out_path,'w'", "file_path,'r'"] := by decide
 
 /-! ### sorting by tilt changes only the order -/
 
@@ -84,16 +107,19 @@ theorem sort_keeps_header (m : Mdoc) (reset : Bool) :
   have hc : (reset && !resetHitsSection m) = false := by simp [reset_hits_section m]
   simp only [sortByTilt, hc, Bool.false_eq_true, if_false, and_self]
 
-/-- **regression witness of the behaviour before fix 6061ac6 (then open finding C17-K3), kept as it was.** The hypothesis
-`resetHitsSection m = false` describes the OLD source (literal key "ZValue", FrameSet object); with the repaired source it is never met
-(`reset_hits_section`), and the revert of the fix makes `reset_key_documented` fail while this statement becomes applicable again.
-On an object whose section column is not the hard-coded key (a FrameSet mdoc; no data column of that
-name), `sort_by_tilt(reset_z_value=True)` does NOT change "only the order": the table gains a column `ZValue` and every image
-gains one entry (which `write` prints as `ZValue = k` inside every section), while the section values stay as they were. -/
-theorem sort_reset_foreign_adds_entry (m : Mdoc) (hs : resetHitsSection m = false) (hk : Gen.C17.resetKey ∉ m.cols) :
-    (sortByTilt true m).cols = m.cols ++ [Gen.C17.resetKey] ∧ (sortByTilt true m).cols ≠ m.cols ∧
-    (sortByTilt true m).rows.map (·.z) = (sortByTilt false m).rows.map (·.z) ∧
-    (sortByTilt true m).rows.map (fun r => r.cells.length) = (sortByTilt false m).rows.map (fun r => r.cells.length + 1) := by
+/-- **regression witness of the behaviour before fix 6061ac6 (then open finding C17-K3)** — restated in round 5: the former version
+carried the hypothesis `resetHitsSection m = false`, which `reset_hits_section` proves unsatisfiable for the repaired source (the theorem
+was vacuous). It now speaks about `resetForeign`, the transcription of the OLD assignment `self.imgs["ZValue"] = range(n)`, applied to the
+sorted table of ANY object without a data column of that name (e.g. every FrameSet mdoc): that assignment did NOT change "only the
+order" — the table gains a column `ZValue`, every image gains one entry (which `write` prints as `ZValue = k` inside every section),
+and the section values stay as they were. The repaired `sortByTilt true` never takes this path (`sort_keeps_header`); the revert of the
+fix makes `reset_key_documented` fail. Non-vacuous: `fs₀` below meets the hypothesis. -/
+theorem sort_reset_foreign_adds_entry (m : Mdoc) (hk : Gen.C17.resetKey ∉ m.cols) :
+    (resetForeign { m with rows := (sortByTilt false m).rows }).cols = m.cols ++ [Gen.C17.resetKey] ∧
+    (resetForeign { m with rows := (sortByTilt false m).rows }).cols ≠ m.cols ∧
+    (resetForeign { m with rows := (sortByTilt false m).rows }).rows.map (·.z) = (sortByTilt false m).rows.map (·.z) ∧
+    (resetForeign { m with rows := (sortByTilt false m).rows }).rows.map (fun r => r.cells.length)
+      = (sortByTilt false m).rows.map (fun r => r.cells.length + 1) := by
   have hi : ¬ (List.idxOf Gen.C17.resetKey m.cols < m.cols.length) := by
     intro h; exact hk (List.idxOf_lt_length_iff.mp h)
   have hmap : ∀ (rows : List Row) (n : Nat),
@@ -104,12 +130,13 @@ theorem sort_reset_foreign_adds_entry (m : Mdoc) (hs : resetHitsSection m = fals
     induction rows with
     | nil => intro n; exact ⟨rfl, rfl⟩
     | cons r rs ih => intro n; simp [List.zipIdx_cons, ih (n + 1)]
-  simp only [sortByTilt, hs, Bool.not_false, Bool.and_true, Bool.true_and, if_true, resetForeign, hi, if_false,
-    Bool.false_and, Bool.false_eq_true]
+  simp only [resetForeign, hi, if_false]
   refine ⟨trivial, ?_, (hmap _ 0).1, (hmap _ 0).2⟩
   intro h
   have := congrArg List.length h
   simp at this
+
+example : Gen.C17.resetKey ∉ ({ info := [], titles := [], sid := "FrameSet".toList, cols := ["TiltAngle".toList], rows := [] } : Mdoc).cols := by decide
 
 /-- what the old assignment did, on a concrete FrameSet object, independent of the flag: `resetForeign` (the transcription of
 `self.imgs["ZValue"] = range(n)`) appends a column and leaves the FrameSet values alone; the repaired `sortByTilt true` renumbers them -/
@@ -139,6 +166,74 @@ theorem sort_sorted (m : Mdoc) :
       exact Rat.le_total) m.rows
   simp only [sortByTilt, sortRowsBy, sort_key_documented.2.1, if_true, Bool.false_and, Bool.false_eq_true, if_false]
   exact h.imp (fun hab => by simpa using hab)
+
+/-! ### equal tilt angles: every ascending arrangement is a correct result of the sort (round 5, item 1) -/
+
+/-- **sorted_perm_unique_up_to_ties.** `DataFrame.sort_values` (quicksort) promises an ascending table, not the order of images with EQUAL
+tilt angles, and the statement asks no more ("change only the order"). Let `rows'` be ANY rearrangement of the table that is ascending in
+the tilt angle. Then, compared with the model's stable sort: (1) the sequence of tilt angles is the same; (2) for every angle, the
+images carrying it are the same up to their order — and so is anything computed image by image from them (`f`: cells, dose, flag);
+(3) if no two images share an angle, `rows'` IS the model's result. -/
+theorem sorted_perm_unique_up_to_ties (m : Mdoc) (rows' : List Row) (hp : rows'.Perm m.rows)
+    (hs : rows'.Pairwise (fun a b => Row.tiltAt (m.cols.idxOf Gen.C17.sortKey) a ≤ Row.tiltAt (m.cols.idxOf Gen.C17.sortKey) b)) :
+    rows'.map (Row.tiltAt (m.cols.idxOf Gen.C17.sortKey)) = (sortByTilt false m).rows.map (Row.tiltAt (m.cols.idxOf Gen.C17.sortKey)) ∧
+    (∀ (k : Rat) {β : Type} (f : Row → β),
+      ((rows'.filter (fun r => Row.tiltAt (m.cols.idxOf Gen.C17.sortKey) r == k)).map f).Perm
+        (((sortByTilt false m).rows.filter (fun r => Row.tiltAt (m.cols.idxOf Gen.C17.sortKey) r == k)).map f)) ∧
+    ((∀ a ∈ m.rows, ∀ b ∈ m.rows, Row.tiltAt (m.cols.idxOf Gen.C17.sortKey) a = Row.tiltAt (m.cols.idxOf Gen.C17.sortKey) b → a = b) →
+      rows' = (sortByTilt false m).rows) := by
+  obtain ⟨h1, h2, h3⟩ := sorted_perm_unique_up_to_ties_gen (Row.tiltAt (m.cols.idxOf Gen.C17.sortKey)) rows' (sortByTilt false m).rows
+    (hp.trans (sort_perm m).symm) hs (sort_sorted m)
+  exact ⟨h1, fun k _ f => (h2 k).map f, fun hinj => h3 (fun a ha b hb => hinj a (hp.subset ha) b (hp.subset hb))⟩
+
+/-- **the arrangement checker is sound and complete, and an accepted arrangement is a correct sort.** When the driver is told the
+arrangement the implementation chose (`order`: for every row of the new table its position in the old one), `sortByTiltAs` accepts it
+exactly when it names every position once and the rows in that order are ascending; the table it continues from is then a permutation of
+the old one, ascending in the tilt angle — to which `sorted_perm_unique_up_to_ties` applies; header, titles, section id, columns untouched -/
+theorem sort_as_spec (m : Mdoc) (o : List Nat) (reset : Bool) :
+    ((sortByTiltAs (some o) reset m).isSome ↔
+      (o.Perm (List.range m.rows.length) ∧
+       (pick m.rows o).Pairwise (fun a b => Row.tiltAt (m.cols.idxOf Gen.C17.sortKey) a ≤ Row.tiltAt (m.cols.idxOf Gen.C17.sortKey) b))) ∧
+    (∀ m', sortByTiltAs (some o) false m = some m' →
+      m'.rows = pick m.rows o ∧ m'.rows.Perm m.rows ∧ m'.info = m.info ∧ m'.titles = m.titles ∧ m'.sid = m.sid ∧ m'.cols = m.cols) := by
+  have hk : ∀ a b : Row, (keyLe (Row.tiltAt (m.cols.idxOf Gen.C17.sortKey)) Gen.C17.sortAscending a b = true) ↔
+      Row.tiltAt (m.cols.idxOf Gen.C17.sortKey) a ≤ Row.tiltAt (m.cols.idxOf Gen.C17.sortKey) b := by
+    intro a b; simp [keyLe, sort_key_documented.2.1]
+  have hiff := arrangeOk_iff (Row.tiltAt (m.cols.idxOf Gen.C17.sortKey)) Gen.C17.sortAscending m.rows o
+  constructor
+  · simp only [sortByTiltAs]
+    split
+    · rename_i h
+      simp only [Option.isSome_some, true_iff]
+      exact ⟨(hiff.mp h).1, (hiff.mp h).2.imp (fun hab => (hk _ _).mp hab)⟩
+    · rename_i h
+      simp only [Option.isSome_none, Bool.false_eq_true, false_iff]
+      intro hc
+      exact h (hiff.mpr ⟨hc.1, hc.2.imp (fun hab => (hk _ _).mpr hab)⟩)
+  · intro m' hm
+    simp only [sortByTiltAs] at hm
+    split at hm
+    · rename_i h
+      simp only [finishSort, Bool.false_and, Bool.false_eq_true, if_false, Option.some.injEq] at hm
+      subst hm
+      exact ⟨rfl, pick_perm m.rows o (hiff.mp h).1, rfl, rfl, rfl, rfl⟩
+    · cases hm
+
+/-- without an arrangement `sortByTiltAs` is `sortByTilt`; and `finishSort` is what `sortByTilt` does after sorting -/
+theorem sort_as_none (m : Mdoc) (reset : Bool) :
+    sortByTiltAs none reset m = some (sortByTilt reset m) ∧
+    sortByTilt reset m = finishSort reset m (sortRowsBy (Row.tiltAt (m.cols.idxOf Gen.C17.sortKey)) Gen.C17.sortAscending m.rows) := ⟨rfl, rfl⟩
+
+/-- two images at 3° (one spelled `3.0`, one `3`): both arrangements are accepted, a descending one and a non-permutation are not -/
+def tie₀ : Mdoc :=
+  { info := [], titles := [], sid := "ZValue".toList, cols := ["TiltAngle".toList, "N".toList],
+    rows := [{ z := "0".toList, cells := [Val.tilt false "3".toList "0".toList, Val.text "a".toList], removed := false },
+             { z := "1".toList, cells := [Val.tilt true "3".toList "0".toList, Val.text "b".toList], removed := false },
+             { z := "2".toList, cells := [Val.tilt false "3".toList "0".toList, Val.text "c".toList], removed := false }] }
+example : (sortByTiltAs (some [1, 0, 2]) false tie₀).isSome = true ∧ (sortByTiltAs (some [1, 2, 0]) false tie₀).isSome = true ∧
+    (sortByTiltAs (some [0, 1, 2]) false tie₀).isSome = false ∧ (sortByTiltAs (some [1, 1, 2]) false tie₀).isSome = false ∧
+    hasTiltTies tie₀ = true := by decide +kernel
+example : (sortByTiltAs (some [1, 2, 0]) false tie₀).map (fun m => m.rows.map (·.z)) = some ["1".toList, "2".toList, "0".toList] := by decide +kernel
 
 /-- `reset_z_value=True` renumbers the section values and changes nothing else in a row, for every object (ZValue and FrameSet) -/
 theorem sort_reset_cells (m : Mdoc) :
@@ -235,7 +330,7 @@ theorem write_omits_removed (m : Mdoc) : printMdoc false m = printMdoc true { m 
   simp only [printMdoc, keptImages, List.filter_filter]
   congr 2
 
-/-- `write(removed=True)` prints every image -/
+/-- (definitional anchor: unfolds `written true`; not a clause of the statement by itself) `write(removed=True)` prints every image -/
 theorem write_all (m : Mdoc) : (m.rows.filter (written true)) = m.rows := by
   simp [written]
 
@@ -254,7 +349,8 @@ theorem tlt_sorted {α : Type} (le : α → α → Bool) (htr : ∀ a b c, le a 
   simp only [tltLoad, defocus_constants_documented.2.2.2.1, if_true]
   exact List.pairwise_mergeSort htr htot xs
 
-/-- dose files are returned in file order -/
+/-- (definitional anchor, `rfl`: `doseLoad` IS the identity — that the real loader returns the file's numbers in file order is carried by
+the correspondence run, clause `dose-values`, not by this line) dose files are returned in file order -/
 theorem dose_file_order {α : Type} (xs : List α) : doseLoad xs = xs := rfl
 
 /-- **defocus units and mean** over any field: with the factor 10⁻⁴ and divisor 2 the reader returns
@@ -734,16 +830,36 @@ theorem sg_to_em_via_file {α β F : Type} (q : α → β) (write : String → S
 
 /-! ### loaders: which reader an input is sent to -/
 
-/-- the dispatch tables of `tlt_load`, `total_dose_load` and `defocus_load`, re-extracted from the source -/
+/-! ### loaders return the numbers in their files: the text → number step is inside the model (round 5, extension) -/
+
+/-- **parse_print_decimal.** The driver receives the decimal TOKENS of the tilt / dose / gctf / ctffind4 files (and of the dimension,
+z-shift and constant arguments) as text and turns them into exact rationals with `parseDecimal`. On the class of tokens the generators
+write — an optional '-', a non-empty digit string, optionally '.' and a digit string (`printDecimal`) — the parser returns exactly the
+rational `±i.f` those digits denote (`decVal`, the value the mdoc model computes with): the parser inverts the printer, for every sign
+and all digit strings (leading / trailing zeros, `5.` and integers included). The implementation's number is then required to be the
+binary float NEAREST to this rational (float32 / float64), compared exactly by the harness (`_nearest`, probed against `float()` and
+`numpy.float32` on every run) — the rounding itself is the one step left outside Lean. -/
+theorem parse_print_decimal (neg : Bool) (i f : Str) (hi : allDigits i = true) (hf : ∀ c ∈ f, c.isDigit = true) :
+    parseDecimal (printDecimal neg i f) = some (decVal neg i f) := parseDecimal_printDecimal neg i f hi hf
+
+/-- non-vacuity and the forms beyond the printer's class that Python's `float()` reads as well: `+`, `.5`, `5.`, exponents; what is no
+decimal literal is refused -/
+example : parseDecimal "-12.50".toList = some (-25 / 2) ∧ parseDecimal "007".toList = some 7 ∧ parseDecimal "+.5e1".toList = some 5 ∧
+    parseDecimal "5.".toList = some 5 ∧ parseDecimal "1e-3".toList = some (1 / 1000) ∧ parseDecimal "2.5E+2".toList = some 250 ∧
+    parseDecimal ".".toList = none ∧ parseDecimal "nan".toList = none ∧ parseDecimal "1_0".toList = none ∧ parseDecimal "".toList = none ∧
+    printDecimal true "12".toList "50".toList = "-12.50".toList ∧ decVal true "12".toList "50".toList = -25 / 2 := by decide +kernel
+
+/-- the dispatch tables of `tlt_load`, `total_dose_load` and `defocus_load`, re-extracted from the source (`total_dose_load` takes a
+tuple like a list since fix fb2f9e8: second entry of its type chain `(list, tuple)`) -/
 theorem loader_dispatch_documented :
     Gen.C17.tltTypeChain = ["np.ndarray", "list", "str"] ∧
     Gen.C17.tltDispatch = [(['.', 'm', 'd', 'o', 'c'], "mdoc.Mdoc"), (['.', 'x', 'm', 'l'], "get_data_from_warp_xml")] ∧
     Gen.C17.tltDefault = "one_value_per_line_read" ∧
     Gen.C17.tltReturns = [("np.ndarray", "input_tlt"), ("list", "np.asarray(input_tlt)")] ∧ Gen.C17.tltSortsFilesOnly = true ∧
-    Gen.C17.doseTypeChain = ["np.ndarray", "list", "str"] ∧
+    Gen.C17.doseTypeChain = ["np.ndarray", "(list, tuple)", "str"] ∧
     Gen.C17.doseDispatch = [(['.', 'c', 's', 'v'], "pd.read_csv"), (['.', 'm', 'd', 'o', 'c'], "mdoc.Mdoc"), (['.', 'x', 'm', 'l'], "get_data_from_warp_xml")] ∧
     Gen.C17.doseDefault = "one_value_per_line_read" ∧
-    Gen.C17.doseReturns = [("np.ndarray", "input_dose"), ("list", "np.asarray(input_dose)")] ∧ Gen.C17.doseSortsMdocByDefault = true ∧
+    Gen.C17.doseReturns = [("np.ndarray", "input_dose"), ("(list, tuple)", "np.asarray(input_dose)")] ∧ Gen.C17.doseSortsMdocByDefault = true ∧
     Gen.C17.defocusTypeChain = ["pd.DataFrame", "str"] ∧
     Gen.C17.defocusDispatch = [("gctf", "gctf_read"), ("ctffind4", "ctffind4_read"), ("warp", "warp_ctf_read")] ∧
     Gen.C17.defocusLowers = true ∧
@@ -771,7 +887,10 @@ example : dispatch Gen.C17.tltDispatch Gen.C17.tltDefault "TS_01/017.rawtlt".toL
     dispatch Gen.C17.tltDispatch Gen.C17.tltDefault "TS_01.mrc.mdoc".toList = "mdoc.Mdoc" ∧
     dispatch Gen.C17.doseDispatch Gen.C17.doseDefault "dose.txt".toList = "one_value_per_line_read" := by decide
 
-/-- **`tlt_load`: arrays and lists are returned as given** — in the given order, *not* sorted — and an empty one raises -/
+/-- (definitional anchor, four `rfl`s: restates the array / list branches of the MODEL `tltLoadIn`; that the real `tlt_load` returns arrays
+and lists as given is carried by the translator obligation `loader_dispatch_documented` (tltReturns) and the correspondence clauses
+`loader-values` / `tlt-array-input`) `tlt_load`: arrays and lists are returned as given — in the given order, not sorted — and an empty
+one raises -/
 theorem tlt_array_as_given {α : Type} (le : α → α → Bool) (s : Bool) (xs : List α) (hne : xs ≠ []) :
     tltLoadIn le s (.array xs) = some xs ∧ tltLoadIn le s (.list xs) = some xs ∧
     tltLoadIn le s (.array ([] : List α)) = none ∧ tltLoadIn le s (.list ([] : List α)) = none := by
@@ -805,8 +924,9 @@ theorem tlt_file_reader {α : Type} (le : α → α → Bool) (s : Bool) (path :
   · intro h1 h2
     simp [tltLoadIn, readByExt, (default_extension path h1 h2).1, loader_dispatch_documented.2.2.2.2.1]
 
-/-- **`total_dose_load`**: arrays and lists as given; an `.mdoc` path yields the mdoc dose (prior + exposure, theorem
-`mdoc_dose`), any other path that is not `.csv` / `.xml` the numbers of the file in file order -/
+/-- `total_dose_load`: (first two conjuncts: definitional anchors, `rfl`) arrays and lists as given; (proved from the regenerated dispatch
+table) an `.mdoc` path yields the mdoc dose (prior + exposure, theorem `mdoc_dose`), any other path that is not `.csv` / `.xml` the numbers
+of the file in file order -/
 theorem dose_input_dispatch {α : Type} (xs : List α) (path : List Char) (v : FileViews α) :
     doseLoadIn (.array xs) = some xs ∧ doseLoadIn (.list xs) = some xs ∧
     (endsWith path ['.', 'c', 's', 'v'] = false → endsWith path ['.', 'm', 'd', 'o', 'c'] = true → doseLoadIn (.file path v) = v.mdoc) ∧
@@ -819,7 +939,8 @@ theorem dose_input_dispatch {α : Type} (xs : List α) (path : List Char) (v : F
   · intro h0 h1 h2
     simp [doseLoadIn, readByExt, (default_extension path h1 h2).2 h0, hid]
 
-/-- **`defocus_load`**: a DataFrame is returned as is; an N×5 array becomes the five documented columns row by row (any other
+/-- `defocus_load` (first conjunct: definitional anchor, `rfl`; the others are proved from the regenerated dispatch table): a DataFrame is
+returned as is; an N×5 array becomes the five documented columns row by row (any other
 width raises); a path is sent to the reader named by `file_type`, compared case-insensitively; an unknown type raises -/
 theorem defocus_input_dispatch {K : Type} [_root_.Field K] (fG fC d : K) (rows : List (Defocus K))
     (g : Option (List (K × K × K × Option K))) (c : Option (List (K × K × K × K))) (ft : String) :
@@ -879,13 +1000,76 @@ theorem defaults_documented : Gen.C17.writeRemovedDefault = false ∧ Gen.C17.wr
 /-- normalised whole-body dumps (docstring dropped, locals renamed to v0, v1, … in binding order, signature included) of the
 functions that have branches the correspondence run never executes (`.xml` / `.csv` / warp / DateTime paths, index files) and of
 the short helpers of `Mdoc`: an added, removed or edited statement changes the digest; renaming a local does not -/
-theorem body_digests_documented : Gen.C17.bodyDigests = [("ioutils.py:tlt_load", "161384711cab65ae"), ("ioutils.py:total_dose_load", "6896b2d70032d592"), ("ioutils.py:defocus_load", "6f51042c781adf83"), ("ioutils.py:indices_load", "15c9d4d27914d107"), ("ioutils.py:one_value_per_line_read", "07acf8de14003d3d"), ("mdoc.py:Mdoc.__init__", "598807ac4017f061"), ("mdoc.py:Mdoc.remove_image", "bdad76b605305919"), ("mdoc.py:Mdoc.remove_images", "0054452332c8cb73"), ("mdoc.py:Mdoc.kept_images", "60ca13db7754f731"), ("mdoc.py:Mdoc.removed_images", "8c7ce118d7aefa10"), ("mdoc.py:Mdoc.get_image_feature", "748c3b4ab5eed2a2"), ("mdoc.py:remove_images", "3e0771a349297a93"), ("mdoc.py:sort_mdoc_by_tilt_angles", "907075bac05c704b"), ("wedgeutils.py:check_data_consistency", "d220e2ac1f16e2a6"), ("wedgeutils.py:load_wedge_list_sg", "f54a3b09bb2346e8")] := by decide
+theorem body_digests_documented : Gen.C17.bodyDigests = [("ioutils.py:tlt_load", "f1a813181975bb3b"), ("ioutils.py:total_dose_load", "c988f324f390f9a5"), ("ioutils.py:defocus_load", "ed98e8f108f7fc82"), ("ioutils.py:indices_load", "911e9762e0258c73"), ("ioutils.py:one_value_per_line_read", "9c168f21992844f6"), ("mdoc.py:Mdoc.__init__", "598807ac4017f061"), ("mdoc.py:Mdoc.remove_image", "bdad76b605305919"), ("mdoc.py:Mdoc.remove_images", "0054452332c8cb73"), ("mdoc.py:Mdoc.kept_images", "60ca13db7754f731"), ("mdoc.py:Mdoc.removed_images", "8c7ce118d7aefa10"), ("mdoc.py:Mdoc.get_image_feature", "748c3b4ab5eed2a2"), ("mdoc.py:remove_images", "3e0771a349297a93"), ("mdoc.py:sort_mdoc_by_tilt_angles", "907075bac05c704b"), ("wedgeutils.py:check_data_consistency", "919fffe59226f242"), ("wedgeutils.py:load_wedge_list_sg", "e5c51b4fa75302c9")] := by decide
 
 /-- **the extended reader is conservative**: every text the strict model `parseMdoc` reads is read by `parseMdocX` (which follows
 the code on duplicate header keys and on every decimal / exponent TiltAngle spelling) into the same object — so all theorems
 about `parseMdoc` speak about what the driver compares the implementation with -/
 theorem parse_ext_conservative (lines : List Str) (m : Mdoc) (h : parseMdoc lines = some m) : parseMdocX lines = some m :=
   parseMdocX_extends lines m h
+
+/-- **the theorems transfer to what the driver runs.** The driver reads with `parseMdocX`; on every text of the strict class (driver
+field `strict = true`) `parseMdocX` IS `parseMdoc` (`parse_ext_conservative`), so for a text of the class `textOk` the round trip holds
+for the driver's reader as well: read, written (all images), re-read with `parseMdocX` — the same object. OUTSIDE the strict class
+(`strict = false`: a repeated header key, a `float()`-only tilt spelling such as `+5` / `5e0`, the same keys in another order in a later
+section) no round-trip THEOREM applies: there the round trip is judged on the implementation alone (spec clause `mdoc-roundtrip`) and
+the model is compared by execution (corr); the theorems about operations (`sort_perm`, `sorted_perm_unique_up_to_ties`,
+`remove_flags_only`, `write_omits_removed`, `kept_index_mapping`, `mdoc_dose`) speak about ANY object and hold there unchanged. -/
+theorem read_write_read_text_driver (lines : List Str) (m : Mdoc) (hp : parseMdocX lines = some m) (hs : (parseMdoc lines).isSome = true)
+    (hok : textOk lines = true) : parseMdocX (printMdoc true m) = some m := by
+  cases hq : parseMdoc lines with
+  | none => rw [hq] at hs; cases hs
+  | some m' =>
+    have := parse_ext_conservative lines m' hq
+    rw [hp] at this
+    injection this with this
+    subst this
+    exact parse_ext_conservative _ _ (read_write_read_text lines m hq hok)
+
+/-- **witness of the open finding C17-K1 at the level of a whole file**: a two-line image whose `Dose = 0.00001` is read as a float, written as
+`1e-05`, and the written file re-reads to ANOTHER object (the cell is now text) -/
+theorem k1_roundtrip_counterexample :
+    ∃ lines m, parseMdoc lines = some m ∧ parseMdoc (printMdoc true m) ≠ some m ∧ (parseMdoc (printMdoc true m)).isSome = true :=
+  ⟨["[ZValue = 0]".toList, "TiltAngle = 1".toList, "Dose = 0.00001".toList], _, rfl, by decide, by decide⟩
+
+/-- **witness of the open finding C17-K4**: when every image is removed, `write()` (removed=False) prints the header entries and titles
+and NO section; as soon as none of these lines begins with `[ZValue` / `[FrameSet` (true of every header entry, and of every title that
+is not itself spelled like a section), the reader finds no section and refuses the file — strict and extended reader alike. So the file
+cryoCAT wrote does not re-read to "the same header entries and the same (empty) per-image table". -/
+theorem all_removed_unreadable (m : Mdoc) (hk : keptImages m = [])
+    (hi : ∀ kv ∈ m.info, secStart (printKV kv.1 kv.2) = none) (ht : ∀ t ∈ m.titles, secStart (printTitle t) = none) :
+    parseMdoc (printMdoc false m) = none ∧ parseMdocX (printMdoc false m) = none := by
+  have hf : m.rows.filter (written false) = [] := by
+    have : m.rows.filter (written false) = keptImages m := by
+      simp only [keptImages]
+      apply List.filter_congr
+      intro r _; simp [written, write_filter_documented]
+    rw [this, hk]
+  have hall : ∀ l ∈ printMdoc false m, (secStart l).isNone = true := by
+    intro l hl
+    simp only [printMdoc, hf, List.flatMap_nil, List.append_nil, List.mem_append, List.mem_map, List.mem_flatMap, List.mem_cons,
+      List.not_mem_nil, or_false] at hl
+    rcases hl with (⟨kv, hkv, rfl⟩ | rfl) | ⟨t, htm, (rfl | rfl)⟩
+    · rw [hi kv hkv]; rfl
+    · decide
+    · rw [ht t htm]; rfl
+    · decide
+  have hdw : ∀ (ls : List Str), (∀ l ∈ ls, (secStart l).isNone = true) → ls.dropWhile (fun l => (secStart l).isNone) = [] := by
+    intro ls
+    induction ls with
+    | nil => intro _; rfl
+    | cons a t ih =>
+      intro h
+      rw [List.dropWhile_cons, if_pos (h a (by simp))]
+      exact ih (fun l hl => h l (by simp [hl]))
+  have hd : (printMdoc false m).dropWhile (fun l => (secStart l).isNone) = [] := hdw _ hall
+  constructor
+  · simp only [parseMdoc, hd]
+  · simp only [parseMdocX, hd]
+
+/-- non-vacuity: `m₀` with both images removed meets the hypotheses; evaluated: the written text has no section line and is refused -/
+example : keptImages { m₀ with rows := m₀.rows.map (fun r => { r with removed := true }) } = [] ∧
+    parseMdoc (printMdoc false { m₀ with rows := m₀.rows.map (fun r => { r with removed := true }) }) = none := by decide
 
 /-- what the extension adds: a repeated header key (dict overwrite: first position, last value), `+5` and `1e-05` tilts -/
 example : (parseMdocX ["A = 1".toList, "B = 2".toList, "A = 3".toList, "[ZValue = 0]".toList, "TiltAngle = +5".toList]).map (fun m => (m.info, m.rows)) =
